@@ -9,4 +9,5 @@ let () =
   | [| _; "nn" |] -> Nn_driver.run ()
   | [| _; "codec" |] -> Codec_driver.run ()
   | [| _; "vss" |] -> Vss_driver.run ()
+  | [| _; "ledger" |] -> Ledger_driver.run ()
   | _ -> prerr_endline "usage: ompl_model <heap|...>"; exit 2
